@@ -133,6 +133,30 @@ def bounded_consumer_on(cline, bad):
     return any(bound[v] for c in bad if c < len(users) for v in users[c] if v < len(bound))
 
 
+def coupled_fatpipe_overload(cline, bad):
+    """second registered class of BMF capacity excess: every overloaded constraint is FATPIPE, no consumer is bounded, and
+    each overloaded constraint has a consumer that also uses ANOTHER constraint (the excess comes out of the coupling
+    between resources in the fixed point; a lone FATPIPE constraint is allocated correctly on the current code)"""
+    toks = cline.split(" ")
+    i = toks.index("NC")
+    nc = int(toks[i + 1])
+    j = i + 2
+    users, fat = [], []
+    for _ in range(nc):
+        ne = int(toks[j + 2])
+        fat.append(toks[j + 1] == "1")
+        users.append([int(toks[j + 3 + 2 * k]) for k in range(ne)])
+        j += 3 + 2 * ne
+    nv = int(toks[j + 1])
+    j += 2
+    ncn = []
+    for _ in range(nv):
+        n = int(toks[j + 4])
+        ncn.append(n)
+        j += 5 + 2 * n
+    return bool(bad) and all(c < nc and fat[c] and any(ncn[v] >= 2 for v in users[c]) for c in bad)
+
+
 def run(ctx, mode):
     pid = ctx.pid
     ctx.cov["rule"] = ("cases = initial LMM system (<=12 constraints x <=20 variables, dyadic bounds/weights/penalties, 6 classes) + "
@@ -212,6 +236,8 @@ def run(ctx, mode):
                 try:
                     if bounded_consumer_on(q, bad):
                         key = "bmf-capacity-exceeded"
+                    elif coupled_fatpipe_overload(q, bad):
+                        key = "bmf-fatpipe-overload-coupled"
                 except (ValueError, IndexError, AssertionError):
                     key = None
             if solver == "maxmin" and v.endswith(" precision-model-agrees") and "over capacity []" in v and "values [" in v:
